@@ -27,6 +27,18 @@ class Engine(LookupMixin, Interp):
     def on_setfield(self, obj, name, old, new, st, node):
         self.check_stale_cache(obj, name, new, st, node)
 
+    def on_cached_property(self, obj, fi, value, st, node):
+        ent = st.get(obj.sym)
+        fam = getattr(self, '_mosfile_family', None)
+        if fam is None:
+            fam = self._mosfile_family = {c.qualname for c in self.prog.subclasses(self.prog.cls('MosFile'))}
+        if ent.cls in fam:
+            fd = Finding('STALE-CACHE', fi.short, '@cached_property',
+                         f'{fi.short} is a cached_property of a long-lived MOS object: the value computed from the document at first access '
+                         'is served forever, also after merges (or the caller) changed what it was computed from',
+                         fi.file, fi.node.lineno, self.entry, self.witness(st))
+            self.findings.setdefault(fd.key, fd)
+
     def check_stale_cache(self, obj, name, new, st, node):
         """STALE-CACHE: a property getter of a long-lived MOS object (MosFile family) stores a value into the object.
         Merges mutate / replace the XML afterwards, so the stored value goes stale."""
